@@ -3,10 +3,54 @@ package main
 import (
 	"fmt"
 	"go/types"
+	"path/filepath"
+
+	"golang.org/x/tools/go/ssa"
 )
 
+// lemmaObligations: a lemma is a closed formula over the package's predicates, checked on an arbitrary heap.
 func lemmaObligations(w *World, pkg, name string) ([]*Obligation, error) {
-	return nil, fmt.Errorf("lemmas not built yet")
+	path := modPath + "/" + pkg
+	cf := w.contracts[path]
+	if cf == nil {
+		return nil, fmt.Errorf("package %s has no contract file", pkg)
+	}
+	sp := w.spkgs[path]
+	var anyFn *ssa.Function
+	for _, m := range sp.Members {
+		if f, ok := m.(*ssa.Function); ok && len(f.Blocks) > 0 {
+			if anyFn == nil || f.Name() < anyFn.Name() {
+				anyFn = f
+			}
+		}
+	}
+	if anyFn == nil {
+		return nil, fmt.Errorf("package %s has no function", pkg)
+	}
+	var out []*Obligation
+	for _, l := range cf.Lemmas {
+		if name != "*" && l.Name != name {
+			continue
+		}
+		vc := newFnVC(w, anyFn, "lemma")
+		vc.ct = nil
+		vc.name = "lemma"
+		vc.e.compSort[nextComp] = "Int"
+		vc.mem0 = vc.e.newMem("base", vc.emit)
+		vc.params = map[string]TV{}
+		vc.ghostTy = map[string]types.Type{}
+		env := vc.newEnv(vc.mem0, vc.mem0)
+		tv, err := env.tr(l.Body)
+		if err != nil {
+			return nil, fmt.Errorf("lemma %s: %v", l.Name, err)
+		}
+		o := &Obligation{Name: filepath.Base(pkg) + ".lemma/" + l.Name, Func: filepath.Base(pkg) + ".lemma", Kind: "lemma", Prefix: len(vc.lines), Guard: "true", Goal: tv.t, Text: l.Text, vc: vc}
+		out = append(out, o)
+	}
+	if len(out) == 0 {
+		return nil, fmt.Errorf("no lemma %q in %s", name, pkg)
+	}
+	return out, nil
 }
 
 func locksetObligations(w *World, pkg string, run *checkRun) []*Obligation { return nil }
